@@ -130,6 +130,8 @@ class ethernet(packet_base):
   @staticmethod
   def parse_next (prev, typelen, raw, offset=0, allow_llc=True):
     parser = ethernet.type_parsers.get(typelen)
+    if isinstance(prev, packet_base) and prev._too_deep():
+      return raw[offset:]
     if parser is not None:
       return parser(raw[offset:], prev)
     elif typelen < 1536 and allow_llc:
